@@ -350,6 +350,25 @@ def check_property(pid, tier, seed, reg, results_cache):
                 futs[un] = ex.submit(run_verus_unit, un, tier, seed)
         for un, f in futs.items():
             results_cache[un] = f.result()
+        # A failed obligation is only reported if it fails under three solver seeds: Verus is sound, so a run that discharges an
+        # obligation under ANY seed is a proof of it; a failure that does not reproduce is solver instability, not a violation.
+        if not os.environ.get('VERIF_NO_RETRY'):
+            rfuts = {}
+            for un in units:
+                r0 = results_cache[un]
+                if r0['status'] == 'ok' and r0['errors'] and not r0.get('retried'):
+                    for sd in (11, 12):
+                        rfuts[(un, sd)] = ex.submit(run_verus_unit, un, tier, seed, ('--smt-option', 'smt.random_seed=%d' % sd))
+            for (un, sd), f in rfuts.items():
+                rr = f.result()
+                r0 = results_cache[un]
+                r0['retried'] = True
+                if rr['status'] == 'ok':
+                    failing = {e['fn'] for e in rr['errors']}
+                    dropped = [e for e in r0['errors'] if e['fn'] not in failing]
+                    if dropped:
+                        r0['errors'] = [e for e in r0['errors'] if e['fn'] in failing]
+                        r0.setdefault('unstable', []).extend(sorted({str(e['fn']) for e in dropped}))
         cfuts = {}
         for un in units:
             key = 'canary:' + un
@@ -576,6 +595,7 @@ def check_property(pid, tier, seed, reg, results_cache):
             'assumed_contracts': assumed,
             'extraction': {'rewrites_applied': rewrites, 'rewrite_meaning': {k: weave.REWRITES_DOC.get(k, '') for k in rewrites},
                            'identity_audit': 'passed for every woven item (a failure makes the unit undecided)'},
+            'unstable_proofs': sorted({'%s::%s' % (x['unit'], fn) for x in results for fn in x.get('unstable', [])}),
             'canaries': {'bodies_checked': sum(c.get('checked', 0) for c in canaries), 'vacuous': vac},
             'bounded_units': [b for k in kres for b in k.get('bounded', [])],
             'solver_ms': smt_ms,
